@@ -184,6 +184,7 @@ func (vc *VC) applyContract(x *ssa.Call, key string, fc *FuncContract, callee *s
 	}
 	sort.Strings(comps)
 	envPre := vc.calleeEnv(fc, callee, args, binds, nil, sig)
+	freshOnly := map[string]bool{}
 	for _, c := range comps {
 		vc.regCompFull(c, eff.comps[c])
 		old := vc.heap(st, c)
@@ -210,6 +211,9 @@ func (vc *VC) applyContract(x *ssa.Call, key string, fc *FuncContract, callee *s
 		if whole {
 			continue
 		}
+		if foot == "false" && idxSort == "Addr" {
+			freshOnly[c] = true
+		}
 		var guard string
 		if idxSort == "Addr" {
 			guard = and(sx("<", sx("rootOf", "a!"), pre.alloc), not(foot))
@@ -218,6 +222,7 @@ func (vc *VC) applyContract(x *ssa.Call, key string, fc *FuncContract, callee *s
 		}
 		vc.assume(fmt.Sprintf("(forall ((a! %s)) (! (=> %s (= (select %s a!) (select %s a!))) :pattern ((select %s a!))))", idxSort, guard, nc, old, nc))
 	}
+	vc.specFrame(func(c string) string { return vc.heap(pre, c) }, st, freshOnly, pre.alloc)
 	// 3. results
 	var res Val
 	var results []Val
